@@ -101,6 +101,9 @@ def check(ctx, rep):
     rep.rule("R18e", "context pushes are all-or-nothing: after a method of the context has pushed a frame it calls nothing that can fail on the "
              "caller's objects (the interpreter pops only what it knows was pushed)", floor=1)
     rep.assume("simpleTALUtils (macro expansion utility) is not used by template expansion and is out of scope")
+    rep.rule("R18h", "the HTML compiler takes attribute values as html.parser hands them over - references already expanded - on every "
+             "interpreter from 3.7 on: evaluated for nine interpreter versions, whatever version test the module makes", floor=1)
+    attribute_passthrough_obligations(ctx, rep, "R18h")
     compile_text_obligations(ctx, rep, "R18d")
     atomic_push_obligations(ctx, rep, "R18e")
     mod = prog.modules.get("simpletal.simpleTAL")
@@ -564,3 +567,137 @@ def library_shadow_obligations(ctx, rep, rule="R18f"):
                     ctx.where(problems[0][0]) if problems else ctx.where(C), "; ".join(p_[1] for p_ in problems[:2]), key=f"{rule}|{C.qualname}")
     if not n_cls:
         rep.fail(rule, "template compilers", detail="no class combining a mix-in with a parser base found")
+
+
+# ---------------------------------------------------------------------------------------------- R18h
+_INTERPRETERS = [(3, 7, 0), (3, 8, 10), (3, 9, 2), (3, 10, 0), (3, 11, 7), (3, 12, 1), (3, 13, 0), (3, 20, 3), (4, 0, 0)]
+_ATTRS = [("title", "R&D<x&y; &amp; &#65; &lt;b&gt;"), ("href", "?a=1&copy=2;&b"), ("checked", None)]
+
+
+def _version_text(v):
+    return "%d.%d.%d (main, Jan  1 2024, 00:00:00) [GCC 12.2.0]" % v
+
+
+def attribute_passthrough_obligations(ctx, rep, rule="R18h"):
+    """html.parser hands attribute values over with their references already expanded, on every interpreter
+    the package supports: the compiler has to take them as they are, whatever version test it makes."""
+    from ..paths import Const, PathLimit, Walker
+    from ..structure import module_func
+
+    prog = ctx.prog
+    tal = prog.modules.get("simpletal.simpleTAL")
+    comp = tal.classes.get("HTMLTemplateCompiler") if tal else None
+    hs = prog.resolve_method(comp, "handle_starttag") if comp else None
+    if hs is None or len(hs.params) < 3:
+        rep.fail(rule, "HTMLTemplateCompiler.handle_starttag", detail="the HTML compiler's start-tag callback was not found")
+        return
+    mod = hs.module
+
+    def dotted_in(node):
+        from ..loader import dotted
+        d = dotted(node)
+        if not d:
+            return None
+        head, _, rest = d.partition(".")
+        head = mod.imports.get(head, head)
+        return head + ("." + rest if rest else "")
+
+    local = {n.id for n in ast.walk(hs.node) if isinstance(n, ast.Name) and isinstance(n.ctx, ast.Store)} | set(hs.params)
+    read = {n.id for n in ast.walk(hs.node) if isinstance(n, ast.Name) and isinstance(n.ctx, ast.Load)} - local
+    # module-level names read by the callback that the module computes rather than states
+    computed = {}
+    for stmt in mod.tree.body:
+        if isinstance(stmt, (ast.FunctionDef, ast.ClassDef, ast.Import, ast.ImportFrom)):
+            continue
+        versioned = any(isinstance(x, ast.Attribute) and (dotted_in(x) or "").startswith(("sys.version", "sys.hexversion", "platform.python_version"))
+                        for x in ast.walk(stmt))
+        for n in ast.walk(stmt):
+            if isinstance(n, ast.Name) and isinstance(n.ctx, ast.Store) and (n.id in read or versioned):
+                if isinstance(stmt, ast.Assign) and isinstance(stmt.value, ast.Constant):
+                    continue
+                if isinstance(stmt, ast.Assign) and isinstance(stmt.value, ast.Call) and dotted_in(stmt.value.func) in ("re.compile", "logging.getLogger"):
+                    continue
+                computed.setdefault(n.id, [])
+                if stmt not in computed[n.id]:
+                    computed[n.id].append(stmt)
+
+    def sysval(v):
+        def ev(node, st):
+            if isinstance(node, ast.Attribute):
+                d = dotted_in(node)
+                if d == "sys.version_info":
+                    return Const(tuple(v) + ("final", 0))
+                if d == "sys.version":
+                    return Const(_version_text(v))
+                if d == "sys.hexversion":
+                    return Const((v[0] << 24) | (v[1] << 16) | (v[2] << 8) | 0xF0)
+                if isinstance(node.value, ast.Attribute) and dotted_in(node.value) == "sys.version_info" and node.attr in ("major", "minor", "micro"):
+                    return Const(v[("major", "minor", "micro").index(node.attr)])
+            if isinstance(node, ast.Call) and dotted_in(node.func) in ("platform.python_version",):
+                return Const("%d.%d.%d" % v)
+            if isinstance(node, ast.Call) and dotted_in(node.func) in ("platform.python_version_tuple",):
+                return Const(tuple(str(x) for x in v))
+            return None
+        return ev
+
+    mf = module_func(mod)
+    problems, undecided, n = [], [], 0
+    for v in _INTERPRETERS:
+        consts = {}
+        for name, stmts in computed.items():
+            w = Walker(prog, ctx.resolver, expr_value=sysval(v), exact_loops=True, unroll=4, max_paths=400)
+            vals = set()
+            try:
+                for p in w.run_body(stmts, mf):
+                    val = p.state.env.get(name)
+                    vals.add(repr(val.value) if val is not None and val.kind == "const" else "?")
+            except PathLimit:
+                vals = {"?"}
+            if len(vals) == 1 and "?" not in vals:
+                consts[name] = Const(ast.literal_eval(next(iter(vals))))
+        seen = []
+
+        def cv(call, target, st, _w=[None]):
+            f = call.func
+            if isinstance(f, ast.Attribute) and isinstance(f.value, ast.Name) and f.value.id == hs.params[0] and f.attr == "parseStartTag":
+                a = w2.cur_args or []
+                seen.append(a[1] if len(a) > 1 else None)
+                return Const(None)
+            if isinstance(f, ast.Attribute) and f.attr in ("debug", "info", "warn", "warning") :
+                return Const(None)
+            if isinstance(f, ast.Attribute) and isinstance(f.value, ast.Name) and f.value.id == hs.params[0] and f.attr == "popTag":
+                return Const(None)
+            return None
+
+        def ev2(node, st, _c=consts, _s=sysval(v)):
+            if isinstance(node, ast.Name) and isinstance(node.ctx, ast.Load) and node.id in _c and node.id not in st.env:
+                return _c[node.id]
+            return _s(node, st)
+
+        w2 = Walker(prog, ctx.resolver, call_value=cv, expr_value=ev2, exact_loops=True, unroll=8, max_paths=3000,
+                    inline=lambda fn, t, d: d < 2 and fn.module.name.startswith("simpletal") and fn.name not in ("parseStartTag", "popTag"))
+        given = [a for a in _ATTRS if a[1] is not None]
+        try:
+            paths = w2.run(hs, comp, env={hs.params[1]: Const("a"), hs.params[2]: Const(list(given))},
+                           facts={"self.tal_namespace_omittag": Const("tal:omit-tag")})
+            kinds = {p.kind for p in paths}
+        except PathLimit:
+            kinds, seen = {"?"}, []
+        got = None
+        if len(seen) == 1 and seen[0] is not None and seen[0].kind == "const" and kinds <= {"return", "fall"}:
+            got = [tuple(x) for x in seen[0].value]
+        label = "%d.%d" % v[:2]
+        if got is None:
+            undecided.append(label + "".join(f" ({k} = {c.value!r})" for k, c in consts.items() if isinstance(c.value, bool)))
+            continue
+        n += 1
+        if got != given:
+            bad = next((g for g, e in zip(got, given) if g != e), got)
+            problems.append(f"on Python {label} ({', '.join(f'{k} = {c.value!r}' for k, c in consts.items()) or 'no version test'}) the attribute value "
+                            f"{dict(given).get(bad[0], '')!r} the parser hands over reaches the compiled template as {bad[1]!r}")
+    ok = not problems and not undecided
+    detail = "; ".join(problems[:2])
+    if undecided and not problems:
+        detail = f"the callback does not plainly pass the values on for Python {', '.join(undecided)}: attribute values are worked on a second time there"
+    rep.add(rule, f"{hs.qualname}: attribute values as the parser hands them over [{n} of {len(_INTERPRETERS)} interpreters evaluated"
+            + (f"; computed module names {sorted(computed)}" if computed else "") + "]", ok, ctx.where(hs), detail, key=f"{rule}|handle_starttag", nontrivial=n > 0)
